@@ -188,6 +188,22 @@ theorem reach_rewireAll (p : PSt) (h : Reachable p.gs) : Reachable (rewireAll p)
     (fun acc r hacc => reach_rewire p.kinds p.hints acc.1 r hacc) p.sw
     (((p.gs, p.err), p.held), []) h
 
+/-! ### the detachment of the `once` nodes that have fired -/
+
+theorem reach_detachAll (p : PSt) (h : Reachable p.gs) : Reachable (detachAll p).gs := by
+  unfold detachAll
+  refine foldl_preserves (P := fun acc : HSt × List (Nat × Nat × Nat) => Reachable acc.1.1.1)
+    ?_ p.onces (((p.gs, p.err), p.held), []) h
+  intro acc o hacc
+  dsimp only
+  split
+  · exact hacc
+  · split
+    · exact hacc
+    · split
+      · exact reach_runOpsH _ _ _ acc.1 hacc
+      · exact hacc
+
 /-! ### with no handle owned by a value, `runOpH` is `runOp` -/
 
 /-- an operation that does not touch `held` -/
@@ -320,14 +336,19 @@ def stepR (p : PSt) : R → PSt × String
     let p := if balanced p then p else { p with err := true }
     (p, if p.err then "struct-error" else "ok")
   | .hints l => ({ p with hints := l }, "-")
-  | .quiet l => (runG (if p.depth = 0 then rewireAll p else p) l, "-")
+  | .fired l => ({ p with done := l }, "-")
+  | .once l env n a sid =>
+    let p := runG { p with env := env, onces := p.onces ++ [(n, a, sid)] } l
+    let p := if balanced p then p else { p with err := true }
+    (p, if p.err then "struct-error" else "ok")
+  | .quiet l => (runG (if p.depth = 0 then detachAll (rewireAll p) else p) l, "-")
   | .open_ => ({ p with depth := p.depth + 1 }, "ok")
   | .close =>
     if p.depth = 0 then (p, "bad-op") else
     let p := { p with depth := p.depth - 1 }
     let p := if p.depth = 0 then
         let p := runG p p.pend
-        rewireAll { p with pend := [], env := p.env.filter fun kv => match kv.2 with | .temps _ => false | _ => true }
+        detachAll (rewireAll { p with pend := [], env := p.env.filter fun kv => match kv.2 with | .temps _ => false | _ => true })
       else p
     let p := runG p [.eot]
     (p, if p.err then "struct-error" else "ok")
